@@ -187,7 +187,13 @@ func genDNSMessage(r *rand.Rand, adversarial bool, maxRR int) ([]byte, string) {
 			if len(ownedLabels) > 0 && r.IntN(4) != 0 {
 				labels = ownedLabels[r.IntN(len(ownedLabels))]
 			}
-			d.RR(r, st, labels, typ, 1, r.Uint32(), rdataGen(r, d, typ, adversarial), delta)
+			// records of other classes than IN occur (CH, HS, ANY, the mDNS cache-flush bit): the type still
+			// says how the data is laid out
+			class := 1
+			if typ != 41 && r.IntN(5) == 0 {
+				class = []int{3, 4, 255, 0x8001, 254, 0}[r.IntN(6)]
+			}
+			d.RR(r, st, labels, typ, class, r.Uint32(), rdataGen(r, d, typ, adversarial), delta)
 		}
 	}
 	sig := fmt.Sprintf("styles%d/types%d", len(styles), len(types))
@@ -372,7 +378,9 @@ func genC12(env *core.Env, emit func(core.Case)) {
 			w = "record data has a Go type not implied by its record type: " + res
 		}
 		ops = append(ops, core.Op{Kind: 'X', Note: "decoding terminates within bounds, without panicking, with record data typed by record type", Want: w})
-		if cls == "ok" && nres < maxRes && len(it.b) < 20000 {
+		// (the hand-made streams always; the generated ones up to a budget)
+		special := it.stream == "owned" || it.stream == "cname-cycle" || it.stream == "negative" || it.stream == "witness"
+		if cls == "ok" && (nres < maxRes || (special && nres < 10*maxRes)) && len(it.b) < 20000 {
 			nres++
 			mu.Lock()
 			body = it.b
@@ -407,7 +415,7 @@ func genC12(env *core.Env, emit func(core.Case)) {
 					}
 				case <-time.After(8 * time.Second):
 					w = "Resolver.Resolve is still running 3 s after its context's deadline (5 s): it neither returns nor reacts to the context"
-					nres = maxRes
+					nres = 10 * maxRes
 				}
 			}()
 			ops = append(ops, core.Op{Kind: 'X', Note: "the resolver consumes any decodable DoH response body without panicking", Want: w})
